@@ -30,9 +30,9 @@ type Case struct {
 }
 
 type modelResp struct {
-	Class    string          `json:"class"`
-	What     string          `json:"what"`
-	Data     interface{}     `json:"data"`
+	Class       string          `json:"class"`
+	What        string          `json:"what"`
+	Data        interface{}     `json:"data"`
 	ErrPaths    [][]interface{} `json:"errPaths"`
 	ErrDeferred []bool          `json:"errDeferred"`
 	Log         []LogEntry      `json:"log"`
@@ -45,10 +45,11 @@ type Observed struct {
 	Data     interface{}     `json:"data"`
 	ErrPaths [][]interface{} `json:"errPaths"`
 	ErrMsgs  []string        `json:"errMsgs"`
+	TypeCtx  []interface{}   `json:"-"`
 	Log      []LogEntry      `json:"log"`
 	InfoBad  []string        `json:"infoBad,omitempty"`
-	Seq      []string        `json:"seq,omitempty"`    // resolver calls and thunk calls, in order
-	Misses   int             `json:"misses"`           // calls of planMergedSelectionsForType (= memo misses) during this execution
+	Seq      []string        `json:"seq,omitempty"` // resolver calls and thunk calls, in order
+	Misses   int             `json:"misses"`        // calls of planMergedSelectionsForType (= memo misses) during this execution
 }
 
 // planModelResp is the driver's answer for "planModel": true (the implementation model GqlModel/Plan.lean).
@@ -180,7 +181,9 @@ func logKeys(l []LogEntry) []string {
 }
 
 // planMisses reads the library's step counter of planMergedSelectionsForType (build tag verif).
-func planMisses() int { return int(graphql.VerifCounters()[graphql.VerifSitePlanMergedSelectionsForType]) }
+func planMisses() int {
+	return int(graphql.VerifCounters()[graphql.VerifSitePlanMergedSelectionsForType])
+}
 
 // RunReal executes the case on the real library.
 func RunReal(c *Case, doc *ast.Document, built *gq.Built, rt *Runtime, ctxTag interface{}) (obs Observed) {
@@ -239,6 +242,7 @@ func observe(res *graphql.Result, rt *Runtime) Observed {
 	rt.mu.Lock()
 	o.Log = append([]LogEntry{}, rt.Log...)
 	o.Seq = append([]string{}, rt.Seq...)
+	o.TypeCtx = append([]interface{}{}, rt.TypeCtx...)
 	rt.mu.Unlock()
 	for _, e := range o.Log {
 		if e.InfoOK != "" {
@@ -648,6 +652,12 @@ func One(run *hx.Run, drv *hx.Driver, m Mode, c *Case) {
 								obs.InfoBad = append(obs.InfoBad, fmt.Sprintf("%s: context of execution %v seen in execution %d", e.Field, e.CtxTag, i))
 							}
 						}
+						for _, t := range obs.TypeCtx {
+							if t != i {
+								obs.InfoBad = append(obs.InfoBad, fmt.Sprintf("a ResolveType / IsTypeOf call of execution %d received context %v", i, t))
+								break
+							}
+						}
 					}()
 					if m.PlanModel && planDiff == "" {
 						planDiff = ComparePlanModel(obs, &pm, i)
@@ -662,6 +672,12 @@ func One(run *hx.Run, drv *hx.Driver, m Mode, c *Case) {
 			for _, e := range obs.Log {
 				if e.CtxTag != rep {
 					obs.InfoBad = append(obs.InfoBad, e.Field+": resolver did not receive the caller's context")
+				}
+			}
+			for _, t := range obs.TypeCtx {
+				if t != rep {
+					obs.InfoBad = append(obs.InfoBad, fmt.Sprintf("a ResolveType / IsTypeOf call did not receive the caller's context (saw %v)", t))
+					break
 				}
 			}
 			if m.PlanModel && planDiff == "" {
